@@ -3,6 +3,26 @@
 import json, os
 ROOT = os.path.dirname(os.path.abspath(__file__))
 CHECKS = {
+ "C01": dict(level="exploration", design="6 C01",
+   text="Seeded exploration in the `prov` profile: the REAL provisioner, scheduler, cluster state, lifecycle and NodePool controllers run against generated catalogs, NodePools (requirements, taints, labels, limits, weights), daemonsets and pod waves (node selectors, OR-ed required affinity, preferences, tolerations, host ports, init containers, extended resources) under both preference and minValues policies, 1-8 candidate-evaluation workers whose interleaving is seeded through hook H1, seeded map orders, a provider that launches ANY permitted type (worst-case biased), nodes registering at seeded times, offerings flipping, faults and restarts. For every scheduling pass that took its snapshot with caches caught up, every placement announced by a Nominated event or a written NodeClaim is checked against an independent admissibility model (upstream node-affinity matcher, own taint / resource / host-port / volume-zone logic): existing and in-flight targets must admit the pod next to what is there; for every instance type a written NodeClaim names some available compatible offering must admit all its pods plus daemon overhead; the node actually launched must admit them too.",
+   note="Trusted: simulator stubs and the admissibility model (sim/models.go); CSI volume limits are not generated yet. Passes whose snapshot was taken while informer events were undelivered are counted as unchecked (rule R3).",
+   technique="deterministic simulation (seeded worker interleavings via H1, seeded map order, adversarial launch choice) + independent admissibility model"),
+ "C03": dict(level="exploration", design="6 C03",
+   text="Seeded exploration in the `prov` profile (dynamic pools): NodePools with cpu / memory limits close to demand, pod waves over many rounds, provider biased to the largest permitted type, offerings flipping, faults and restarts. At every provider launch and at the end of the run the summed capacity of the pool's launched non-deleting instances (provider ground truth) must not exceed the limits (skipped for pools whose limits the user edited during the run). The static-pool clauses are decided in the `static` profile when built.",
+   note="Trusted: simulator stubs; capacity is taken from the provider's instances, not from Karpenter's bookkeeping.",
+   technique="deterministic simulation with adversarial (worst-case) launch choice; conservation check on provider ground truth"),
+ "C04": dict(level="exploration", design="6 C04",
+   text="Seeded exploration in the `prov` profile: passes run at every point of the node lifecycle (created, launched, node not yet appeared, registered, initialized, extended resources still zero, startup taints present). For every simple pod that a caught-up pass maps to a new NodeClaim, no existing node and no launched, non-deleting, unmarked NodeClaim may admit it (independent model, counting every daemonset that could still land there) next to everything assigned there by the end of the pass. Gate clause: no pass takes its snapshot while a NodeClaim whose creation was acknowledged to this incarnation is unlaunched and not deleting.",
+   note="Trusted: simulator stubs and the admissibility model. Simple = no inter-pod constraint, no preference, no volume.",
+   technique="deterministic simulation + independent admissibility model (sound in both directions, incomplete in the daemon-overhead gap)"),
+ "C15": dict(level="exploration", design="6 C15",
+   text="Seeded exploration in the `prov` profile: NodeClaims created by the real provisioner from generated NodePools are launched as whatever the provider picks; pools receive non-drifting edits (weight, limits, budgets) and drifting edits (template annotation) at seeded times; the real hash and nodeclaim.disruption controllers run. A NodeClaim of a pool that only saw non-drifting edits must never become Drifted=True. The for-all-templates hash clause is only sampled by this edit catalogue.",
+   note="Trusted: simulator stubs. Provider IsDrifted answers \"\" in these runs. The positive clause (drift reported within two polls after a drifting edit) is observed as a probe, not yet enforced.",
+   technique="deterministic simulation with adversarial launch choice; invariant on the Drifted condition"),
+ "C19": dict(level="exploration", design="6 C19",
+   text="Seeded exploration in the `prov` profile with 1-8 template-evaluation workers interleaved through hook H1: for every simple pod that opens a NodeClaim in a caught-up pass, every ready dynamic pool of higher weight must be infeasible for that pod alone under the independent model (some type of the pool compatible with pool and pod requirements, available offering, tolerated taints, requests plus every daemonset that could land). Checked only in runs without limits, minValues or reserved offerings. The price/truncation clause is a pure function and is not claimed.",
+   note="Trusted: simulator stubs and the admissibility model.",
+   technique="deterministic simulation with seeded worker interleavings (H1) + independent feasibility model"),
  "C09": dict(level="fault_enumeration", design="6 C09",
    text="Single-fault sweep plus seeded exploration in the `term` profile (and the orphan clause also in `life`): nodes brought up by the real lifecycle controller carry generated pods, PDBs and volume attachments and are then deleted by users, expiry and repair while the REAL node.termination controller, terminator, eviction queue and NodeClaim finalizer run. Every seam call of the baselines is re-run with one fault (error-before, lost response, crash-after); further runs add random API/provider faults, slow or failing provider deletes, stuck pods and attachments, vanishing instances, restarts and clock jumps. At each finalizer-removing write the oracle checks, on what the removing task read plus provider ground truth: disruption taint present, no drainable pod in its pod list, no blocking attachment unless the deadline passed, provider answered NotFound and the instance is really gone (fast path only for NotReady nodes); for NodeClaims: no Node listed if registered and no acknowledged instance alive; end of run: no orphan instance.",
    note="Trusted: simulator stubs (API server incl. graceful pod deletion and eviction subresource, provider with asynchronous termination, kubelet). Instances whose Create response was lost or whose creating incarnation crashed are counted, not flagged.",
